@@ -37,6 +37,7 @@ ASSUMPTIONS = [
 BOUNDS = {"quick": {"bs": [2]}, "thorough": {"bs": [2, 3]}}
 KEYS3 = ["a", "b", "c"]
 OBS_B = np.array([[0.9], [-1.1], [0.35], [0.6]])
+SYS_W = {"zz": 2.0, "aa": 0.5}
 CALLER = {"a": np.asarray(0.7), "b": np.asarray([-0.4]), "c": np.asarray([0.3, 1.1])}
 
 
@@ -81,34 +82,37 @@ def res_formula(use_eq, uval, z0, a, b, c):
 class EqO(jinns.loss.ODE):
     use_eq: bool = eqx.field(static=True, default=True, kw_only=True)
     key: str = eqx.field(static=True, default=None, kw_only=True)
+    scale: float = eqx.field(static=True, default=1.0, kw_only=True)
 
     def equation(self, t, u, params):
         uu = u[self.key] if self.key else u
         pp = params.extract_params(self.key) if self.key else params
         e = pp.eq_params
-        return jnp.reshape(res_formula(self.use_eq, uu(t, pp)[0], jnp.reshape(t, ()), sc(e["a"]), sc(e["b"]), e["c"]), (1,))
+        return self.scale * jnp.reshape(res_formula(self.use_eq, uu(t, pp)[0], jnp.reshape(t, ()), sc(e["a"]), sc(e["b"]), e["c"]), (1,))
 
 
 class EqS(jinns.loss.PDEStatio):
     use_eq: bool = eqx.field(static=True, default=True, kw_only=True)
     key: str = eqx.field(static=True, default=None, kw_only=True)
+    scale: float = eqx.field(static=True, default=1.0, kw_only=True)
 
     def equation(self, x, u, params):
         uu = u[self.key] if self.key else u
         pp = params.extract_params(self.key) if self.key else params
         e = pp.eq_params
-        return jnp.reshape(res_formula(self.use_eq, uu(x, pp)[0], x[0], sc(e["a"]), sc(e["b"]), e["c"]), (1,))
+        return self.scale * jnp.reshape(res_formula(self.use_eq, uu(x, pp)[0], x[0], sc(e["a"]), sc(e["b"]), e["c"]), (1,))
 
 
 class EqN(jinns.loss.PDENonStatio):
     use_eq: bool = eqx.field(static=True, default=True, kw_only=True)
     key: str = eqx.field(static=True, default=None, kw_only=True)
+    scale: float = eqx.field(static=True, default=1.0, kw_only=True)
 
     def equation(self, t, x, u, params):
         uu = u[self.key] if self.key else u
         pp = params.extract_params(self.key) if self.key else params
         e = pp.eq_params
-        return jnp.reshape(res_formula(self.use_eq, uu(t, x, pp)[0], t[0], sc(e["a"]), sc(e["b"]), e["c"]), (1,))
+        return self.scale * jnp.reshape(res_formula(self.use_eq, uu(t, x, pp)[0], t[0], sc(e["a"]), sc(e["b"]), e["c"]), (1,))
 
 
 def base_kind(kind):
@@ -147,15 +151,21 @@ def build(case, hetero=None):
         obs_b = obs
     else:
         params = jinns.parameters.ParamsDict(nn_params={"u": u.init_params()}, eq_params=eqp)
+        # two equations (the second is twice the first), inserted in non-alphabetical order, with per-key weights written in
+        # the other order: sum_eq w_eq * mean r_eq^2 = (SYS_W["zz"] + 4 * SYS_W["aa"]) * mean r^2
+        dyn2 = EQC(use_eq=use_eq, key=sysk, eq_params_heterogeneity=hetero, scale=2.0)
+        dyn_dict = {"zz": dyn, "aa": dyn2}
+        wdyn = {"aa": SYS_W["aa"], "zz": SYS_W["zz"]}
         if kind == "sys_ode":
-            loss = L.quiet(jinns.loss.SystemLossODE, u_dict={"u": u}, dynamic_loss_dict={"u": dyn}, initial_condition_dict={"u": (0.3, jnp.asarray([0.2]))},
-                           loss_weights=jinns.loss.LossWeightsODEDict(dyn_loss=1.0, initial_condition=1.0, observations=1.0), params_dict=params)
+            loss = L.quiet(jinns.loss.SystemLossODE, u_dict={"u": u}, dynamic_loss_dict=dyn_dict, initial_condition_dict={"u": (0.3, jnp.asarray([0.2]))},
+                           loss_weights=jinns.loss.LossWeightsODEDict(dyn_loss=wdyn, initial_condition=1.0, observations=1.0), params_dict=params)
         else:
-            loss = L.quiet(jinns.loss.SystemLossPDE, u_dict={"u": u}, dynamic_loss_dict={"u": dyn}, initial_condition_fun_dict={"u": lambda x: jnp.sin(x)},
-                           loss_weights=jinns.loss.LossWeightsPDEDict(dyn_loss=1.0, norm_loss=None, boundary_loss=None, observations=1.0, initial_condition=1.0),
+            loss = L.quiet(jinns.loss.SystemLossPDE, u_dict={"u": u}, dynamic_loss_dict=dyn_dict, initial_condition_fun_dict={"u": lambda x: jnp.sin(x)},
+                           loss_weights=jinns.loss.LossWeightsPDEDict(dyn_loss=wdyn, norm_loss=None, boundary_loss=None, observations=1.0, initial_condition=1.0),
                            params_dict=params)
         obs_b = {"u": obs}
-    return dict(u=u, coef=coef, expo=expo, loss=loss, params=params, obs=obs_b, obs_raw=obs, bk=bk, d=d, use_net=use_net, use_eq=use_eq, dyn=dyn)
+    return dict(u=u, coef=coef, expo=expo, loss=loss, params=params, obs=obs_b, obs_raw=obs, bk=bk, d=d, use_net=use_net, use_eq=use_eq, dyn=dyn,
+                dyn_factor=(SYS_W["zz"] + 4.0 * SYS_W["aa"]) if kind.startswith("sys") else 1.0)
 
 
 def rows_of(key, b):
@@ -180,7 +190,7 @@ def oracle_terms(P, pts, obs_raw, vals, obs_over=None):
     a, b, c = vals["a"].reshape(B), vals["b"].reshape(B), vals["c"].reshape(B, 2)
     U = net(pts, a, b, c)
     r = res_formula(P["use_eq"], U, pts[:, 0], a, b, c)
-    out = {"dyn_loss": float(np.mean(r**2))}
+    out = {"dyn_loss": P.get("dyn_factor", 1.0) * float(np.mean(r**2))}
     # observations: row i of the observation table with row i of the batched keys
     zo = np.asarray(obs_raw["pinn_in"])
     ao, bo, co = a[: len(zo)], b[: len(zo)], c[: len(zo)]
@@ -283,7 +293,10 @@ def run_hetero(case):
     params = P["params"]
     v = []
     got = []
-    for z in pts:
+    snap0 = snapshot(params)
+    for rep in range(2):  # evaluated twice: the caller's parameters must not be touched by the replacement
+      got = []
+      for z in pts:
         zz = jnp.asarray(z)
         if kind == "ode":
             got.append(float(P["dyn"].evaluate(zz[0], P["u"], params)[0]))
@@ -291,6 +304,8 @@ def run_hetero(case):
             got.append(float(P["dyn"].evaluate(zz, P["u"], params)[0]))
         else:
             got.append(float(P["dyn"].evaluate(zz[:1], zz[1:], P["u"], params)[0]))
+    if snapshot(params) != snap0:
+        v.append(V(site, "callers_parameters_modified_by_heterogeneous_evaluation", f"map {dict(zip(KEYS3, case['hmap']))}"))
     U = L.jets(P["coef"], P["expo"], pts, [()])[()][0]
     vals = {}
     for k, mode in zip(KEYS3, case["hmap"]):
